@@ -6,7 +6,7 @@ NAMES = ["Linux", "Windows", "Mac OS X", "FreeBSD", "nmap", "curl", "Open-BSD (x
 FLAV = ["3.x", "", "7 or 8", "2.6.x (loopback)", "NT kernel", "x,y"]
 CLASSES = ["unix", "win", "!", "other", "", "cisco", "Unix", "WIN", "x y"]
 HDR_NAMES = ["Host", "User-Agent", "Accept", "Accept-Encoding", "Connection", "Keep-Alive", "Server", "Date", "Content-Type",
-             "Content-Length", "X-Tag", "ACCEPT", "accept-language", "Via"]
+             "Content-Length", "X-Tag", "ACCEPT", "accept-language", "Via", "X-Zone-Id", "AUTHORIZATION"]
 
 
 def rand_tcp_sig(R):
